@@ -481,7 +481,7 @@ B('C14.dnskey-prime-not-tested', ['C14'], [(P + 'dnsrec/record.py', "        if 
   mention=['C14.R15'], props=['C14', 'C08'])
 N('benign.rsa-modulus-test-spelled-lt-1', [(P + 'ssh/key.py', "        if parser['n'] <= 0:\n", "        if parser['n'] < 1:\n")])
 # DNSKEY DSA: the width of P, G and Y from the prime itself, not from a key size computed with a floating point logarithm
-B('C08.dsa-width-from-float-key-size', ['C08', 'C05'], [(P + 'dnsrec/record.py', "        key_size = (key_params.prime.bit_length() + 7) // 8\n", "        key_size = key.key_size // 8\n")], mention=['DSA'])
+B('C08.dsa-width-from-float-key-size', ['C08', 'C05'], [(P + 'dnsrec/record.py', "        key_size = (max(key_params.prime, key_params.generator, key_params.public_key_value).bit_length() + 7) // 8\n", "        key_size = key.key_size // 8\n")], mention=['DSA'])
 # the ASN.1 decoder gives up with TypeError / AttributeError on elements that do not fit the schema
 B('C02.ldap-decoder-typeerror-escapes', ['C02'], [(P + 'tls/ldap.py', "        except (KeyError, TypeError, AttributeError) as e:", "        except (KeyError, AttributeError) as e:")], mention=['TypeError'])
 # rendering decodes nothing: a second parse call on the way from _asdict is reported although one is a recorded finding
@@ -498,3 +498,5 @@ B('C11.fromtimestamp-as-converter', ['C11', 'C05'], [(P + 'tls/subprotocol.py', 
 # the encoder of the key object gives up with OverflowError for a coordinate that is a power of 256
 B('C02.ecdsa-overflow-escapes', ['C02'], [(P + 'ssh/key.py', "        except (ValueError, OverflowError) as e:  # a coordinate the encoder of the key object cannot take\n",
   "        except ValueError as e:\n")], mention=['OverflowError'])
+B('C08.dsa-width-from-prime-alone', ['C08', 'C05'], [(P + 'dnsrec/record.py', "        key_size = (max(key_params.prime, key_params.generator, key_params.public_key_value).bit_length() + 7) // 8\n",
+  "        key_size = (key_params.prime.bit_length() + 7) // 8\n")], mention=['DSA'])
